@@ -38,7 +38,7 @@ def lockstep(spec):
     if err is not None:
         return {"spec": spec, "trace": equiv.merge("C12_Lockstep", False, [], [], {"no_exception_" + type(err).__name__: False})}
     # the port's objective evaluations, with the deviation / round-off triggers seen so far
-    log_a, excuses = [], {}
+    log_a, excuses, rays = [], {}, {}
     seen = set()
     fprev = None
     trials = []
@@ -66,6 +66,7 @@ def lockstep(spec):
                 excuses.setdefault(len(log_a) - len(trials) + 1, ("Deviation", "first-iteration step cap"))
             if e["ret"] == "step" and trials and e["pt"] != trials[-1]:
                 excuses.setdefault(len(log_a), ("Deviation", "lowest trial accepted instead of the last"))
+                rays[len(log_a)] = (x0pt.copy(), obs.arr[trials[-1]] - x0pt)
             if e["ret"] == "step":
                 fnew = obs.fval.get(e["pt"])
                 if fprev is not None and fnew is not None and abs(fprev - fnew) <= 1e3 * np.finfo(float).eps * max(1.0, abs(fnew)):
@@ -81,7 +82,14 @@ def lockstep(spec):
 
     rs = minimize(fg, p.x0, jac=True, method="L-BFGS-B",
                   options={"maxcor": m, "maxiter": 12, "ftol": 0.0, "gtol": 1e-12, "maxls": 20, "maxfun": 400})
-    # the first excuse only matters from its position on
+    # "lowest trial accepted" is a deviation only if the reference ended the same line search at the same trial:
+    # if its next evaluation still lies on the ray of that search, the port stopped the search early - no excuse
+    for pos, (x0r, dr) in rays.items():
+        if pos < len(lb_.pts) and excuses.get(pos, ("",))[0] == "Deviation" and "lowest" in excuses[pos][1]:
+            v = lb_.pts[pos][1] - x0r
+            nd, nv = float(np.linalg.norm(dr)), float(np.linalg.norm(v))
+            if nd > 0 and nv > 0 and float(v @ dr) > 0 and np.linalg.norm(v / nv - dr / nd) <= 1e-7:
+                del excuses[pos]
     n = min(len(log_a), len(lb_.pts))
     tr = equiv.merge("C12_Lockstep", False, log_a, lb_.pts, None, excuses=excuses, limit=n, rtol=1e-7)
     nsame = 0
